@@ -361,7 +361,7 @@ func ruleMapOrder(c *Ctx, r *R) {
 				}
 				instrs(g, func(b *ssa.BasicBlock, i int, in ssa.Instruction) {
 					if ret, ok := in.(*ssa.Return); ok {
-						if bin, ok := ret.Results[0].(*ssa.BinOp); ok && bin.Op == token.LSS && path(bin.X) == g.Params[0].Name()+".idx" && path(bin.Y) == g.Params[1].Name()+".idx" {
+						if bin, ok := ret.Results[0].(*ssa.BinOp); ok && bin.Op == token.LSS && path(bin.X) == pname(g.Params[0])+".idx" && path(bin.Y) == pname(g.Params[1])+".idx" {
 							okLess = true
 						}
 					}
